@@ -212,7 +212,7 @@ pub fn run(ctx: &Ctx) {
         "inv",
         61 * 31 * 6 * 7,
         true,
-        "EXHAUSTIVE: x = 2^i*5^j for all i <= 60, j <= 30 x p in exact length + {-2..3} x 7 modes",
+        "EXHAUSTIVE over (i, j, p, mode): x = +-2^i*5^j for all i <= 60, j <= 30 x p in exact length + {-2..3} x 7 modes; sign and scale -3..3 vary with a mix of the four indices",
         |i| {
             let mut k = i;
             let mode = (k % 7) as u8;
@@ -223,7 +223,11 @@ pub fn run(ctx: &Ctx) {
             let i2 = (k / 31) as u32;
             let xi = BigInt::from(2u8).pow(i2) * BigInt::from(5u8).pow(j);
             let exact_digits = bdoracle::quot::recip_terminating_digits(xi.magnitude()).unwrap() as i64;
-            Some(InvCase { d: D::new(xi.to_string(), (i as i64 % 7) - 3), p: (exact_digits + dp).max(1) as u64, mode })
+            // scale and sign vary independently of the mode (i2 + 3j + 5dp runs through all residues for each mode)
+            let mix = i2 as i64 + 3 * j as i64 + 5 * (dp + 2) + 2 * mode as i64;
+            let scale = mix % 7 - 3;
+            let digits = if (mix / 7) % 2 == 1 { format!("-{}", xi) } else { xi.to_string() };
+            Some(InvCase { d: D::new(digits, scale), p: (exact_digits + dp).max(1) as u64, mode })
         },
         check_inv,
     );
